@@ -373,6 +373,10 @@ pub assume_specification<T, U, F: FnOnce(T) -> U> [Option::<T>::map_or] (o: Opti
     ensures match o { Some(x) => f.ensures((x,), r), None => r == default };
 pub assume_specification<T, E, U, F: FnOnce(T) -> U> [Result::<T, E>::map_or] (o: Result<T, E>, default: U, f: F) -> (r: U)
     ensures match o { Ok(x) => f.ensures((x,), r), Err(_) => r == default };
+pub assume_specification<T, E> [Result::<T, E>::unwrap_or] (o: Result<T, E>, default: T) -> (r: T)
+    ensures r == (match o { Ok(x) => x, Err(_) => default });
+pub assume_specification<T, E, U, F: FnOnce(T) -> Result<U, E>> [Result::<T, E>::and_then] (o: Result<T, E>, f: F) -> (r: Result<U, E>)
+    ensures match o { Ok(x) => f.ensures((x,), r), Err(e) => r == Err::<U, E>(e) };
 pub assume_specification<T> [Option::<Option<T>>::flatten] (o: Option<Option<T>>) -> (r: Option<T>)
     ensures r == (match o { Some(x) => x, None => None });
 
